@@ -12,8 +12,13 @@ def explore_variants(rep, make_harness, variants, bound=None, time_cap=None, lab
     results = []
     best = {}  # signature -> (ndev, len, detail, replay)
     nprobe = 0
+    import sys
+    import time as _time
+
     harnesses = [make_harness(cfg) for cfg in variants]
+    _t0 = _time.time()
     stats = explore.explore_many(harnesses, bound=bound, time_cap=time_cap)
+    print(f'[{rep.pid}] {label}: {len(variants)} configurations, bound {bound}, {sum(st.executions for st in stats)} executions, {_time.time() - _t0:.0f}s', file=sys.stderr, flush=True)
     for cfg, h, st in zip(variants, harnesses, stats):
         explore.evidence_from(st, rep, prefix=f'{label}:{common.short_hash(cfg)}')
         results.append((cfg, st))
